@@ -26,6 +26,21 @@ PROPS = {
         value_only=["FuelVolDelta"],   # its Jacobian belongs to C01 (known finding F10)
         assumptions=["element lengths are positive (non-degenerate beam mesh) and the fuel volumes do not sum to zero"],
     ),
+    "C15": dict(
+        components=["VonMisesTube", "VonMisesWingbox", "FailureKS", "FailureExact", "SectionPropertiesTube",
+                    "NonIntersectingThickness", "Energy"],
+        assumptions=["elements are not aligned with the global x axis (the local triad uses x as reference)",
+                     "IEEE overflow is not modelled: the theorem shows every KS exponent is <= 0"],
+    ),
+    "C17": dict(
+        components=["TotalLiftDrag", "SumAreas", "Equilibrium", "Breguet", "CenterOfGravity", "Reynolds", "MomentCoefficient", "Coeffs"],
+        assumptions=["Akima interpolation of the atmosphere table is scipy's (continuity checked numerically only)"],
+    ),
+    "C18": dict(
+        components=["ViscousDrag", "WaveDrag", "TotalDrag", "VLMGeometry"],
+        assumptions=["monotonicity is proved for fully turbulent (k_lam = 0) and fully laminar (k_lam = 1) sections; "
+                     "mixed laminar fractions are examined numerically by the oracle only"],
+    ),
 }
 for k, v in PROPS.items():
     v["theorems"] = THEOREMS.get(k, {}).get("theorems", [])
